@@ -37,3 +37,10 @@ def r03_3_numeric_discipline(ctx: Ctx) -> RuleResult:
     rr = RuleResult("R03.3", "no float arithmetic on unbounded integer quantities; flooring operators only on non-negative operands", min_instances=12)
     check_numeric(ctx, rr, C03_MODULES)
     return rr
+
+
+@rule("C03")
+def r03_5_units(ctx: Ctx) -> RuleResult:
+    from ..dims import units_rule
+
+    return units_rule(ctx, "R03.5", "C03", 100)
